@@ -33,7 +33,7 @@ REQUIRED = ["csr_strobe_exact", "csr_addr", "csr_w_data", "ack_exact", "dat_r_la
 
 
 def n_cases(tier):
-    return 200 if tier == "quick" else 3000
+    return 600 if tier == "quick" else 8000
 
 
 def gen_case(rng, tier, idx):
